@@ -282,6 +282,78 @@ func kvfsExec(c *Ctx, op string) {
 	c.Distinct(modelOp + what + whKind)
 }
 
+// kvfsShrink: the source changes under the packer — the last file of the walk is truncated while its body is being
+// copied (the first write that reaches the warehouse after the copy started does it: deterministic). Whatever pack
+// answers, the warehouse must agree: an error leaves nothing, a success leaves a ware that scans to the returned id.
+func kvfsShrink(c *Ctx, fmtName, whKind string) {
+	caseCounter++
+	base := filepath.Join(c.Work, fmt.Sprintf("kvshr%d", caseCounter))
+	defer rmrf(base)
+	src, whDir := filepath.Join(base, "src"), filepath.Join(base, "wh")
+	os.MkdirAll(whDir, 0755)
+	big := make([]byte, 3<<20)
+	for i := range big {
+		big[i] = byte(c.Rand())
+	}
+	fsx := Fileset{{Name: "", Kind: 'd', Perms: 0755, Sec: 1e9}, {Name: "a", Kind: 'f', Perms: 0644, Sec: 1e9, Content: []byte("small")},
+		{Name: "zz-last", Kind: 'f', Perms: 0644, Sec: 1e9, Content: big}}
+	if Materialize(fsx, src, nil) != nil {
+		return
+	}
+	op := fmt.Sprintf("kvfs-shrink %s %s", fmtName, whKind)
+	c.Begin(op)
+	fn := funcsFor(fmtName)
+	ctx := context.Background()
+	pf := api.MustParseFilesetPackFilter(losslessPackStr)
+	var once sync.Once
+	writes := 0
+	verifhook.Set(func(name string, detail []string) error {
+		if name == "kvfs.write" {
+			writes++
+			if writes >= 2 {
+				once.Do(func() { os.Truncate(filepath.Join(src, "zz-last"), 4096) })
+			}
+		}
+		return nil
+	})
+	id, err, pan := safeCall(func() (api.WareID, error) {
+		return fn.pack(ctx, api.PackType(fmtName), src, pf, whAddr(whKind, whDir), rio.Monitor{})
+	})
+	verifhook.Set(nil)
+	c.H("shrink:" + fmtName + ":" + strings.Fields(resTok(id, err, pan))[0])
+	var files, staging []string
+	filepath.Walk(whDir, func(p string, info os.FileInfo, e error) error {
+		if e == nil && !info.IsDir() {
+			if strings.HasPrefix(info.Name(), ".tmp.upload") {
+				staging = append(staging, p)
+			} else {
+				files = append(files, p)
+			}
+		}
+		return nil
+	})
+	switch {
+	case pan != "":
+		c.PropFail("kvfs-panic", "pack of a shrinking file panicked: "+pan, op)
+	case err != nil:
+		if len(files) > 0 {
+			c.PropFail("error-but-committed", "pack of a file that shrank while being read returned an error but left an object in the warehouse", op)
+		}
+	default:
+		final := storedWarePath(whKind, whDir, id)
+		sid, e2, pan2 := safeCall(func() (api.WareID, error) {
+			return fn.scan(ctx, api.PackType(fmtName), api.MustParseFilesetUnpackFilter(losslessUnpackStr), rio.Placement_Direct, api.WarehouseLocation("file://"+final), rio.Monitor{})
+		})
+		if e2 != nil || pan2 != "" || sid != id {
+			c.PropFail("partial-ware-served", fmt.Sprintf("pack of a file that shrank while being read reported success (%s); the ware at the final address does not scan to that id: %v", id.Hash, e2), op)
+		}
+	}
+	if len(staging) > 0 {
+		c.PropFail("staging-left", "a staging file was left behind by a pack that returned", op)
+	}
+	c.EmitR(op, "skip", "skip")
+}
+
 func verifhookQuiet(f func()) { f() }
 
 // kvfsFullDisk: a real ENOSPC — the warehouse is a tiny tmpfs.
@@ -351,6 +423,9 @@ func kvfsEngine(c *Ctx) {
 					fmt.Sscan(f[4], &n)
 				}
 				kvfsFullDiskSized(c, f[1], f[2], size, n)
+			} else if strings.HasPrefix(op, "kvfs-shrink ") {
+				f := strings.Fields(op)
+				kvfsShrink(c, f[1], f[2])
 			} else if strings.HasPrefix(op, "kvfs ") {
 				kvfsExec(c, op)
 			}
@@ -389,6 +464,11 @@ func kvfsEngine(c *Ctx) {
 			if s%2 == 0 {
 				kvfsExec(c, fmt.Sprintf("kvfs %s %s crash:%d %s", what, wh, i, tok))
 			}
+		}
+	}
+	for _, fm := range []string{"tar", "zip"} {
+		for _, k := range []string{"ca", "file"} {
+			kvfsShrink(c, fm, k)
 		}
 	}
 	for _, w := range whats {
